@@ -24,9 +24,16 @@ pub fn random_par(rng: &mut Rng) -> String {
     if rng.chance(1, 3) { s.push_str("%allow_unmatched\n"); }
     let states = rng.chance(1, 2);
     let how = [0usize, 1, 2, 2][rng.below(4)];
+    // state-specific skip lists: the token that switches the scanner is skipped in exactly one of the two states, a
+    // plain token in the other
+    let skipmode = if states { rng.below(4) } else { 0 };
     if states {
+        if skipmode == 1 { s.push_str("%skip Q\n"); }
+        if skipmode == 3 { s.push_str("%skip W\n"); }
         s.push_str(match how { 0 => "%on Q %enter Str\n", 1 => "%on Q %push Str\n", _ => "%on Q %push Str\n" });
         s.push_str("%scanner Str {\n    %auto_newline_off\n    %auto_ws_off\n");
+        if skipmode == 2 { s.push_str("    %skip Q\n"); }
+        if skipmode == 3 { s.push_str("    %skip Q, W\n"); }
         s.push_str(match how { 0 => "    %on Q %enter INITIAL\n", 1 => "    %on Q %pop\n", _ => "    %on Q %pop\n    %on P %push Str\n" });
         s.push_str("}\n");
     }
@@ -49,6 +56,7 @@ pub fn random_par(rng: &mut Rng) -> String {
     }
     s.push_str(&format!("S: {{ T }};\nT: {};\n", alts.join(" | ")));
     if states {
+        if skipmode == 3 { s.push_str("W: <INITIAL, Str> /w+/;\n"); }
         s.push_str("Q: <INITIAL, Str> \"\\u{22}\";\n");
         if how == 2 { s.push_str("P: <Str> \"\\(\";\n"); }
     }
@@ -59,7 +67,7 @@ fn random_text(rng: &mut Rng) -> String {
     let atoms = ["if", "i", "f", "a", "b", "ab", "abc", "fi", "iif", "0", "12", "3.4", ".", "=", "==", "===", "+", "++", "+++", "<", "<-", "-", " ", "  ", "\n", "\r\n",
                  "\"", "(", ")", "(*", "*)", "//x", "#", "é", "z9", "a1", "ba",
                  // nested pushes of a state into itself and their pops
-                 "\"((", "\"(", "\"\"", "((", "\"\"\""];
+                 "\"((", "\"(", "\"\"", "((", "\"\"\"", "w", "ww ", "\"w\""];
     let n = rng.range(0, 14);
     (0..n).map(|_| atoms[rng.below(atoms.len())]).collect::<Vec<_>>().join("")
 }
@@ -123,15 +131,19 @@ pub fn run(a: &Args) {
         }
         let members_sx = (0..gc.scanner_configurations.len()).map(|m| format!("({})", decl.iter().enumerate().filter(|(_, d)| d.contains(&m)).map(|(i, _)| (i + 5).to_string()).collect::<Vec<_>>().join(" "))).collect::<Vec<_>>().join(" ");
         modes_sx.push(format!("(members {})", members_sx));
+        // SKIP_TOKENS_BY_SCANNER_STATE as the parser generator emits it
+        let skip_vecs: Vec<&'static [u16]> = gc.scanner_configurations.iter().map(|c| { let v: Vec<u16> = c.skip_tokens.clone(); let l: &'static [u16] = Box::leak(v.into_boxed_slice()); l }).collect();
+        let skips: &'static [&'static [u16]] = Box::leak(skip_vecs.into_boxed_slice());
+        modes_sx.push(format!("(skips {})", skips.iter().map(|l| format!("({})", l.iter().map(|t| t.to_string()).collect::<Vec<_>>().join(" "))).collect::<Vec<_>>().join(" ")));
         for _ in 0..6 {
             let text = random_text(&mut rng);
             let k = [1usize, 2, 5][rng.below(3)];
             let peek: Vec<bool> = (0..4).map(|_| rng.chance(1, 2)).collect();
-            let toks = sc.tokens(&text, k, &[], &peek);
+            let toks = sc.tokens(&text, k, skips, &peek);
             // byte offset -> code point offset
             let cp = |b: u32| text[..(b as usize).min(text.len())].chars().count();
             let res = match toks {
-                Ok(ts) => format!("({})", ts.iter().filter(|t| t.0 != 0).map(|t| format!("({} {} {})", t.0, cp(t.1), cp(t.2))).collect::<Vec<_>>().join(" ")),
+                Ok(ts) => format!("({})", ts.iter().filter(|t| t.0 != 0).map(|t| format!("({} {} {} {})", t.0, cp(t.1), cp(t.2), t.3 as u8)).collect::<Vec<_>>().join(" ")),
                 Err(e) => format!("(error {})", sx::s(&e)),
             };
             println!("(scan {} (modes {}) {} {} {})", sx::s(&par), modes_sx.join(" "), rx::cps(&text), k, res);
